@@ -2,8 +2,8 @@
 From Coq Require Import ZArith.
 From Coq Require Extraction.
 From Coq Require Import ExtrOcamlBasic.
-From C15 Require Import Model ModelPoly ModelRm ModelExt.
+From C15 Require Import Model ModelPoly ModelRm ModelExt ModelRu ModelRat.
 Extraction Language OCaml.
 Cd "ocaml".
-Extraction "model.ml" run_ring run_gcd5 run_gcd4 run_divmod run_divmod_w run_powmod run_q gcdext invmod run_poly run_pdivmod run_rm run_rudiv run_rudiv_op run_ext run_ext_byref run_polyB run_pdivmodin run_pgcdx run_ppdivmod run_ppmod.
+Extraction "model.ml" run_ring run_gcd5 run_gcd4 run_divmod run_divmod_w run_powmod run_q gcdext invmod run_poly run_pdivmod run_rm run_rudiv run_rudiv_op run_ext run_ext_byref run_polyB run_pdivmodin run_pgcdx run_ppdivmod run_ppmod run_rm_expw run_qmuldiv run_rushift run_rulmul.
 Cd "..".
